@@ -204,6 +204,15 @@ def join_byte_intervals(
                     if aux_data and bi in aux_data:
                         table[bi] = aux_data[bi]
             if len(table) > 0:
+                # The destination needs an entry that is backed by the aux
+                # data as well, otherwise the relocated items would only be
+                # stored in this temporary dict and be lost.
+                destination = intervals[0]
+                if destination not in table and destination.module:
+                    aux_data = table_def.get(destination.module)
+                    if aux_data is not None:
+                        aux_data[destination] = {}
+                        table[destination] = aux_data[destination]
                 tables.append(table)  # type: ignore # per above this is hacky
 
     destination = intervals[0]
